@@ -157,8 +157,9 @@ PROPS = {
         "runs": [distr("", 320, 12000)],
         "preds": ["C04."],
         "rule": DISTR_RULE + "; C04 compares every destination's credited amount (balance gained + recorded remains) with an independent exact-rational oracle of the configured shares",
-        "partial": ["the cumulative drift bound over many blocks and the independence from source order are checked against the exact-rational oracle "
-                    "on every run; in Coq the per-step law (truncated share, remainder to primary, fractions booked) is proved"],
+        "partial": ["the independence from the order of the sources and the composition of the per-step law along chains of internal accounts are checked "
+                    "against the exact-rational oracle on every run; in Coq the per-step law (truncated share, remainder to primary, fractions booked) and the "
+                    "cumulative drift bound (below one 10^-18 unit per step, never above the exact fraction) are proved"],
         "level_text": "Coq theorems: a named share is floor(inflow*share) in 18-digit fixed point between 0 and the inflow; per step every share event, "
                       "the burn and the primary remainder are exactly as configured and the books grow by exactly those amounts (fractions kept); "
                       "crediting one destination touches no other. K3 and K4 refuted by computed witnesses. The implementation's per-destination "
@@ -290,9 +291,9 @@ PROPS = {
         "runs": [vest("split", 220, 6000)],
         "preds": ["C07."],
         "rule": VEST_RULE + "; for C07 non-trivial additionally needs a successful split/move",
-        "partial": ["C07_schedule_endpoints_partial: the agreement of sender+recipient with the sender alone is proved at the split block and "
-                    "from the end time on; between them it is checked on the implementation at sampled later times (predicate "
-                    "C07.later_time_agreement), the closed-form bound is not proved"],
+        "partial": ["the later-time theorem is about the vesting coins of one denomination (what the SDK's GetVestingCoins returns); locked coins additionally subtract "
+                    "the delegated-vesting amount, whose bookkeeping by x/staking is modelled, not verified; sampled later times are also checked on the implementation "
+                    "(C07.later_time_agreement)"],
         "level_text": "Coq theorems for every original vesting, schedule, block time and requested amount (unbounded integers, any tie-breaking): "
                       "the new original vesting computed by UnlockUnbondedContinuousVestingAccountCoins leaves exactly the requested amount fewer "
                       "coins vesting; at account level the sender's locked coins drop by exactly the amount per denomination, spendable is "
